@@ -27,6 +27,7 @@ import Wf.Model.RandomCoin
 import Wf.Model.AirDesc
 import Wf.Model.Boundary
 import Wf.Model.Security
+import Wf.Model.Fields
 namespace Wf.Verifier
 open Wf Wf.AirDesc Wf.AirDivisor
 
@@ -80,6 +81,32 @@ def efBase (fp : FieldParams) : EF Nat :=
   { ops := primeOps fp.m, deg := 1, ofBase := fun v => v % fp.m, ofCanon := fun l => l.headD 0 % fp.m,
     toCanon := fun x => [x] }
 
+/-- the evaluation fields a base field offers (`FieldExtension::None / Quadratic / Cubic`; `none` =
+`is_supported()` is false) -/
+structure FieldSet where
+  fp : FieldParams
+  F2 : Type
+  F3 : Type
+  e1 : EF Nat
+  e2 : Option (EF F2)
+  e3 : Option (EF F3)
+
+/-- f64 and its quadratic / cubic extensions (`x² = x − 2`, `x³ = x + 1`: the regenerated formulas
+of `Wf/Gen/F64.lean` over canonical values) -/
+def f64Fields : FieldSet :=
+  let b := primeOps paramsF64.m
+  let p := paramsF64.m
+  { fp := paramsF64, F2 := Nat × Nat, F3 := Nat × Nat × Nat, e1 := efBase paramsF64,
+    e2 := some
+      { ops := quadOps b (Gen.F64.ext2Mul b) (Gen.F64.ext2Square b) (Gen.F64.ext2Frobenius b), deg := 2,
+        ofBase := fun v => (v % p, 0), ofCanon := fun l => (l.getD 0 0 % p, l.getD 1 0 % p),
+        toCanon := fun x => [x.1, x.2] },
+    e3 := some
+      { ops := cubeOps b (Gen.F64.ext3Mul b) (Gen.F64.ext3Square b) (Gen.F64.ext3Frobenius b), deg := 3,
+        ofBase := fun v => (v % p, 0, 0),
+        ofCanon := fun l => (l.getD 0 0 % p, l.getD 1 0 % p, l.getD 2 0 % p),
+        toCanon := fun x => [x.1, x.2.1, x.2.2] } }
+
 /-- `AIR::PublicInputs` of `GenAir`: the claimed values of the main assertions -/
 abbrev PubInputs := List (List Nat)
 
@@ -88,14 +115,15 @@ abbrev PubInputs := List (List Nat)
 /-- where a `ProofDeserializationError` comes from (the harness classifies the message text the
 same way) -/
 inductive DeserSite where
-  | lde | nq0 | commitments | mainQueries | auxQueries | constraintQueries | friRemainder
+  | lde | queries | nq0 | commitments | mainQueries | auxQueries | constraintQueries | friRemainder
   | friRemainderUnconsumed | friLayer | friLayerDomain | friCount | ood
   deriving DecidableEq, Repr
 
 /-- sites of Rust panics -/
 inductive AbortSite where
   /-- `Context::to_elements`: `from_bytes_with_padding` asserts `bytes.len() < ELEMENT_BYTES`
-  (math/src/field/traits.rs) on the halves of the proof's modulus bytes / metadata chunks -/
+  (math/src/field/traits.rs) on the halves of the proof's modulus bytes / metadata chunks; unreachable
+  since fix ceafb22 (the base field check comes first) for sane field parameters -/
   | seed
   /-- `Air::new` → `AirContext::new[_multi_segment]`, `set_num_transition_exemptions`
   (air/src/air/context.rs) -/
@@ -104,7 +132,8 @@ inductive AbortSite where
   | periodic
   /-- `BoundaryConstraints::new` / `prepare_assertions` (air/src/air/boundary/mod.rs) -/
   | boundary
-  /-- `draw_integers`: `assert!(num_values < domain_size)` (crypto/src/random/default.rs) -/
+  /-- `draw_integers`: `assert!(num_values < domain_size)` (crypto/src/random/default.rs); unreachable
+  since fix ceafb22 (`verify` rejects `num_queries >= lde_domain_size`) -/
   | drawIntegers
   /-- `AcceptableOptions::validate`: the security estimate panics -/
   | security
@@ -578,78 +607,125 @@ def friRes {α} : Fri.Res α → R α
 
 /-! ## `perform_verification` -/
 
-/-- everything after the channel has been built -/
-def performVerification {F} (H : HashParams) (fp : FieldParams) (ef : EF F) (d : Desc) (pub : PubInputs)
-    (p : ProofM) (ctx : Ctx) (ch : Channel F) (coin0 : CoinS) : R Unit :=
-  let info := p.context.info
-  let o := p.context.options
-  let lde := info.length * o.blowup
-  let ccols := ctx.numConstraintCompositionColumns
-  -- 1 ----- trace commitment
-  match ch.traceCommitments with
-  | [] => .error (.abort .table)
-  | tc0 :: _ =>
-  let coin := Coin.reseed H.coin coin0 tc0
-  match drawCoefficients H fp ef o.batchC (d.trans.length + d.auxTrans.length + d.asserts.length) coin with
+/-- steps 1–2: reseed with the trace commitment, draw the constraint composition coefficients,
+reseed with the constraint commitment, draw the out-of-domain point `z` -/
+def drawChallenges {F} (H : HashParams) (fp : FieldParams) (ef : EF F) (method numCoeffs : Nat)
+    (traceCommitment constraintCommitment : Nat) (coin0 : CoinS) : R ((List F × F) × CoinS) :=
+  match drawCoefficients H fp ef method numCoeffs (Coin.reseed H.coin coin0 traceCommitment) with
   | none => .error .randomCoin
-  | some (coeffs, coin) =>
-  let tcoef := coeffs.take (d.trans.length + d.auxTrans.length)
-  let bcoef := coeffs.drop (d.trans.length + d.auxTrans.length)
-  -- 2 ----- constraint commitment
-  let coin := Coin.reseed H.coin coin ch.constraintCommitment
-  match drawE H fp ef coin with
-  | none => .error .randomCoin
-  | some (z, coin) =>
-  -- 3 ----- OOD consistency check
-  match evaluateConstraints fp ef d pub info tcoef bcoef ch.oodTraceCur ch.oodTraceNext z with
+  | some (coeffs, c1) =>
+    match drawE H fp ef (Coin.reseed H.coin c1 constraintCommitment) with
+    | none => .error .randomCoin
+    | some (z, c2) => .ok ((coeffs, z), c2)
+
+/-- step 3: the out-of-domain consistency check -/
+def oodCheck {F} (fp : FieldParams) (ef : EF F) (d : Desc) (pub : PubInputs) (info : TraceInfo)
+    (ch : Channel F) (coeffs : List F) (z : F) : R Unit :=
+  match evaluateConstraints fp ef d pub info (coeffs.take (d.trans.length + d.auxTrans.length))
+      (coeffs.drop (d.trans.length + d.auxTrans.length)) ch.oodTraceCur ch.oodTraceNext z with
   | .error e => .error e
   | .ok ev1 =>
-  if !ef.ops.beq ev1 (oodQuotientValue ef.ops z info.length ch.oodQuotCur) then .error .inconsistentOod else
-  let oodEvals := ch.oodTraceCur ++ ch.oodQuotCur ++ (ch.oodTraceNext ++ ch.oodQuotNext)
-  let coin := Coin.reseed H.coin coin (H.hashElements (oodEvals.flatMap ef.toCanon))
-  -- 4 ----- FRI commitments
-  match drawCoefficients H fp ef o.batchD (info.main + info.aux + ccols) coin with
+    if !ef.ops.beq ev1 (oodQuotientValue ef.ops z info.length ch.oodQuotCur) then .error .inconsistentOod
+    else .ok ()
+
+/-- `H::hash_elements(&merge_ood_evaluations(trace_frame, quotient_frame))` -/
+def oodDigest {F} (H : HashParams) (ef : EF F) (ch : Channel F) : Nat :=
+  H.hashElements ((ch.oodTraceCur ++ ch.oodQuotCur ++ (ch.oodTraceNext ++ ch.oodQuotNext)).flatMap ef.toCanon)
+
+/-- step 4: DEEP coefficients, then `FriVerifier::new` (layer commitments → alphas) -/
+def friCommit {F} (H : HashParams) (fp : FieldParams) (ef : EF F) (o : ProofOptions) (numDeep traceLength : Nat)
+    (ch : Channel F) (coin : CoinS) : R ((List F × List F) × CoinS) :=
+  match drawCoefficients H fp ef o.batchD numDeep coin with
   | none => .error .randomCoin
-  | some (deep, coin) =>
-  match friNewLoop H fp ef o.folding ch.friCommitments.length ch.friCommitments 0 (info.length - 1 + 1) coin with
-  | .error e => .error e
-  | .ok (alphas, coin) =>
-  -- 5 ----- trace and constraint queries
-  if Coin.checkLeadingZeros H.coin coin ch.nonce < o.grinding then .error .pow else
-  match (Coin.drawIntegers H.coin coin o.queries lde ch.nonce).2 with
+  | some (deep, c1) =>
+    match friNewLoop H fp ef o.folding ch.friCommitments.length ch.friCommitments 0 (traceLength - 1 + 1) c1 with
+    | .error e => .error e
+    | .ok (alphas, c2) => .ok ((deep, alphas), c2)
+
+/-- step 5 (first half): proof of work, query positions, `sort_unstable` + `dedup` -/
+def queryPositions (H : HashParams) (o : ProofOptions) (lde nonce : Nat) (coin : CoinS) : R (List Nat) :=
+  if Coin.checkLeadingZeros H.coin coin nonce < o.grinding then .error .pow else
+  match (Coin.drawIntegers H.coin coin o.queries lde nonce).2 with
   | .abort => .error (.abort .drawIntegers)
   | .err _ _ => .error .randomCoin
-  | .ok rawPositions =>
-  let positions := sortDedup rawPositions
-  match Merkle.verifyBatch H.merge tc0 positions
-      (ch.mainStates.map fun row => hashRow H (fun v => [v]) row ch.partMain) ch.mainProof with
+  | .ok raw => .ok (sortDedup raw)
+
+/-- the leaves `read_queried_trace_states` / `read_constraint_evaluations` hand to `verify_many` -/
+def mainLeaves {F} (H : HashParams) (ch : Channel F) : List Nat :=
+  ch.mainStates.map fun row => hashRow H (fun v => [v]) row ch.partMain
+
+def constraintLeaves {F} (H : HashParams) (ef : EF F) (ch : Channel F) : List Nat :=
+  ch.constraintEvals.map fun row => hashRow H ef.toCanon row ch.partConstraint
+
+/-- step 5 (second half): both batch openings against their commitments -/
+def checkOpenings {F} (H : HashParams) (ef : EF F) (ch : Channel F) (traceCommitment : Nat)
+    (positions : List Nat) : R Unit :=
+  match Merkle.verifyBatch H.merge traceCommitment positions (mainLeaves H ch) ch.mainProof with
   | .abort => .error (.abort .merkle)
   | .err _ => .error .traceQuery
   | .ok _ =>
-  match Merkle.verifyBatch H.merge ch.constraintCommitment positions
-      (ch.constraintEvals.map fun row => hashRow H ef.toCanon row ch.partConstraint) ch.constraintProof with
-  | .abort => .error (.abort .merkle)
-  | .err _ => .error .constraintQuery
-  | .ok _ =>
-  -- 6 ----- DEEP composition
-  match fp.rootOfUnity lde.log2, fp.rootOfUnity info.length.log2,
+    match Merkle.verifyBatch H.merge ch.constraintCommitment positions (constraintLeaves H ef ch)
+        ch.constraintProof with
+    | .abort => .error (.abort .merkle)
+    | .err _ => .error .constraintQuery
+    | .ok _ => .ok ()
+
+/-- step 6: `DeepComposer::new` + `compose_columns` -/
+def deepEvaluations {F} (ef : EF F) (fp : FieldParams) (width : Nat) (ch : Channel F) (z : F)
+    (deep : List F) (positions : List Nat) (gLde gTrace : Nat) : List F :=
+  deepCompose ef.ops z (ef.ops.mul z (ef.ofBase gTrace)) (deep.take width) (deep.drop width)
+    ch.oodTraceCur ch.oodTraceNext ch.oodQuotCur ch.oodQuotNext
+    (ch.mainStates.map fun row => row.map ef.ofBase) ch.constraintEvals
+    (positions.map fun pos => ef.ops.mul (fexp ef.ops (ef.ofBase gLde) pos) (ef.ofBase fp.generator))
+
+/-- the `FriVerifier` built by `FriVerifier::new` -/
+def friVerifier {F} (ef : EF F) (fp : FieldParams) (o : ProofOptions) (traceLength numPartitions gFri : Nat)
+    (alphas : List F) : Fri.Verifier F :=
+  { maxPolyDegree := traceLength - 1, domainSize := Fri.nextPow2 (traceLength - 1 + 1) * o.blowup,
+    g := ef.ofBase gFri, offset := ef.ofBase fp.generator, options := friOptions o,
+    numPartitions := numPartitions, alphas := alphas }
+
+/-- does the last FRI commitment equal the hash of the remainder? -/
+def remainderCommitted {F} (H : HashParams) (ef : EF F) (ch : Channel F) : Bool :=
+  ch.friCommitments.getLast? == some (H.hashElements (ch.friRemainder.flatMap ef.toCanon))
+
+/-- steps 6–7: DEEP composition and `FriVerifier::verify` -/
+def lowDegreeCheck {F} (H : HashParams) (fp : FieldParams) (ef : EF F) (info : TraceInfo) (o : ProofOptions)
+    (ch : Channel F) (z : F) (deep alphas : List F) (positions : List Nat) : R Unit :=
+  match fp.rootOfUnity (info.length * o.blowup).log2, fp.rootOfUnity info.length.log2,
         fp.rootOfUnity (Fri.nextPow2 (info.length - 1 + 1) * o.blowup).log2 with
   | some gLde, some gTrace, some gFri =>
-    let offset := ef.ofBase fp.generator
-    let xs := positions.map fun pos => ef.ops.mul (fexp ef.ops (ef.ofBase gLde) pos) offset
-    let deepEvals := deepCompose ef.ops z (ef.ops.mul z (ef.ofBase gTrace)) (deep.take (info.main + info.aux))
-      (deep.drop (info.main + info.aux)) ch.oodTraceCur ch.oodTraceNext ch.oodQuotCur ch.oodQuotNext
-      (ch.mainStates.map fun row => row.map ef.ofBase) ch.constraintEvals xs
-    -- 7 ----- low-degree proof
-    let v : Fri.Verifier F :=
-      { maxPolyDegree := info.length - 1, domainSize := Fri.nextPow2 (info.length - 1 + 1) * o.blowup,
-        g := ef.ofBase gFri, offset := offset, options := friOptions o,
-        numPartitions := ch.friNumPartitions, alphas := alphas }
-    let remainderOk := ch.friCommitments.getLast? == some (H.hashElements (ch.friRemainder.flatMap ef.toCanon))
-    friRes (Fri.verify ef.ops v deepEvals positions
-      (layerOpenings H ef o.folding ch.friNumPartitions positions v.domainSize ch.friCommitments ch.friLayers)
-      ch.friRemainder remainderOk)
+    friRes (Fri.verify ef.ops (friVerifier ef fp o info.length ch.friNumPartitions gFri alphas)
+      (deepEvaluations ef fp (info.main + info.aux) ch z deep positions gLde gTrace) positions
+      (layerOpenings H ef o.folding ch.friNumPartitions positions
+        (Fri.nextPow2 (info.length - 1 + 1) * o.blowup) ch.friCommitments ch.friLayers)
+      ch.friRemainder (remainderCommitted H ef ch))
   | _, _, _ => .error (.abort .root)
+
+/-- everything after the channel has been built -/
+def performVerification {F} (H : HashParams) (fp : FieldParams) (ef : EF F) (d : Desc) (pub : PubInputs)
+    (p : ProofM) (ctx : Ctx) (ch : Channel F) (coin0 : CoinS) : R Unit :=
+  match ch.traceCommitments with
+  | [] => .error (.abort .table)
+  | tc0 :: _ =>
+  match drawChallenges H fp ef p.context.options.batchC
+      (d.trans.length + d.auxTrans.length + d.asserts.length) tc0 ch.constraintCommitment coin0 with
+  | .error e => .error e
+  | .ok ((coeffs, z), c2) =>
+  match oodCheck fp ef d pub p.context.info ch coeffs z with
+  | .error e => .error e
+  | .ok _ =>
+  match friCommit H fp ef p.context.options
+      (p.context.info.main + p.context.info.aux + ctx.numConstraintCompositionColumns)
+      p.context.info.length ch (Coin.reseed H.coin c2 (oodDigest H ef ch)) with
+  | .error e => .error e
+  | .ok ((deep, alphas), c3) =>
+  match queryPositions H p.context.options (p.context.info.length * p.context.options.blowup) ch.nonce c3 with
+  | .error e => .error e
+  | .ok positions =>
+  match checkOpenings H ef ch tc0 positions with
+  | .error e => .error e
+  | .ok _ => lowDegreeCheck H fp ef p.context.info p.context.options ch z deep alphas positions
 
 /-! ## `verify` -/
 
@@ -662,40 +738,80 @@ def validateOptions (H : HashParams) (acc : Security.Acceptable) (c : Context) :
   | .unacceptableOptions => .error .unacceptableOptions
   | .abort => .error (.abort .security)
 
+/-! ## what `verify` silently assumes about the (untrusted) context of the proof -/
+
+/-- the assertions of the statement exist, are as many as the AIR declares and pass
+`prepare_assertions` for the trace width and length announced by the proof -/
+def assertionsFit (p : Nat) (d : Desc) (pub : PubInputs) (info : TraceInfo) : Bool :=
+  match getAssertions p d pub with
+  | none => false
+  | some as =>
+    as.length == d.asserts.length &&
+      (match Assertion.prepareAssertions as info.main info.length with
+       | .ok _ => true
+       | .error _ => false)
+
+/-- The conditions on the context of a parsed proof under which `verify` does not panic; each one
+is a panic site of the Rust code when it fails (see `AbortSite`):
+`airNew` – `Air::new` accepts the trace layout, blowup and trace length;
+`periodic` – no periodic column is longer than the trace;
+`boundary` – the assertions are valid for the announced trace width and length.
+(Before fix ceafb22 there were two more: a modulus that fits `from_bytes_with_padding`, and fewer
+queries than LDE domain points; `verify` now checks both.) -/
+def contextFits (fp : FieldParams) (d : Desc) (pub : PubInputs) (c : Context) : Bool :=
+  (airNew d c.info c.options).isSome &&
+  d.periodic.all (fun col => periodicColumnOk col.length c.info.length) &&
+  assertionsFit fp.m d pub c.info
+
+/-- sanity of the base-field parameters (a property of the field, not of the proof): an element has
+at least two bytes and every value of `ELEMENT_BYTES − 1` bytes is below the modulus — so that
+`from_bytes_with_padding` succeeds on 7/15-byte metadata chunks and on the halves of the field's own
+modulus bytes (true of f64, f62 and f128) -/
+def fieldOk (fp : FieldParams) : Bool := decide (2 ≤ fp.bytes) && decide (256 ^ (fp.bytes - 1) ≤ fp.m)
+
+/-- the part of `verify` that is generic in the evaluation field -/
+def verifyIn {F} (H : HashParams) (fp : FieldParams) (ef : EF F) (d : Desc) (pub : PubInputs)
+    (p : ProofM) (ctx : Ctx) (seed : List Nat) : R Unit :=
+  match channelNew fp ef ctx p with
+  | .error e => .error e
+  | .ok ch => performVerification H fp ef d pub p ctx ch (Coin.new H.coin seed)
+
 /-- `verify::<GenAir, H, DefaultRandomCoin<H>, MerkleTree<H>>(proof, pub_inputs, acceptable)` on a
-parsed proof, for the evaluation field chosen by `efOf` (`none` = this extension degree is not
-modelled / not supported by the base field) -/
-def verifyParsed {F} (H : HashParams) (fp : FieldParams) (efOf : Nat → Option (EF F)) (d : Desc)
-    (pub : PubInputs) (acc : Security.Acceptable) (p : ProofM) : R Unit :=
+parsed proof -/
+def verifyParsed (H : HashParams) (fs : FieldSet) (d : Desc) (pub : PubInputs)
+    (acc : Security.Acceptable) (p : ProofM) : R Unit :=
   match validateOptions H acc p.context with
   | .error e => .error e
   | .ok _ =>
-  match contextElements fp p.context with
+  -- base field check first (fix ceafb22): the modulus bytes come from the untrusted proof
+  if p.context.modulus ≠ leBytes fs.fp.bytes fs.fp.m then .error .inconsistentBaseField else
+  match contextElements fs.fp p.context with
   | none => .error (.abort .seed)
   | some ctxEls =>
-  if (p.context.info.length * p.context.options.blowup).log2 > fp.twoAdicity then .error (.deser .lde) else
+  if (p.context.info.length * p.context.options.blowup).log2 > fs.fp.twoAdicity then .error (.deser .lde) else
+  -- fix ceafb22: the coin cannot draw as many positions as the LDE domain has points
+  if p.context.options.queries ≥ p.context.info.length * p.context.options.blowup then
+    .error (.deser .queries) else
   if d.auxWidth ≠ 0 then .error .unmodelled else
   match airNew d p.context.info p.context.options with
   | none => .error (.abort .airNew)
   | some ctx =>
-  match efOf p.context.options.ext with
-  | none => .error .unmodelled
-  | some ef =>
-  match channelNew fp ef ctx p with
-  | .error e => .error e
-  | .ok ch => performVerification H fp ef d pub p ctx ch (Coin.new H.coin (ctxEls ++ pubElements fp d pub))
+    if p.context.options.ext = 1 then verifyIn H fs.fp fs.e1 d pub p ctx (ctxEls ++ pubElements fs.fp d pub)
+    else if p.context.options.ext = 2 then
+      match fs.e2 with
+      | none => .error (.unsupportedFieldExtension 2)
+      | some ef => verifyIn H fs.fp ef d pub p ctx (ctxEls ++ pubElements fs.fp d pub)
+    else
+      match fs.e3 with
+      | none => .error (.unsupportedFieldExtension 3)
+      | some ef => verifyIn H fs.fp ef d pub p ctx (ctxEls ++ pubElements fs.fp d pub)
 
-/-- `Proof::from_bytes(bytes)` followed by `verify` -/
-def verifyWith {F} (H : HashParams) (fp : FieldParams) (efOf : Nat → Option (EF F)) (d : Desc)
-    (pub : PubInputs) (acc : Security.Acceptable) (bytes : Bytes) : R Unit :=
+/-- `Proof::from_bytes(bytes)` followed by `verify`: THE model of the whole verifier -/
+def verifyModel (H : HashParams) (fs : FieldSet) (d : Desc) (pub : PubInputs)
+    (acc : Security.Acceptable) (bytes : Bytes) : R Unit :=
   match proofDec bytes with
-  | .ok p _ => verifyParsed H fp efOf d pub acc p
+  | .ok p _ => verifyParsed H fs d pub acc p
   | .err _ => .error .fromBytes
   | .abort => .error (.abort .table)
-
-/-- the instance the correspondence stream runs: any hasher, base field `fp`, extension degree 1 -/
-def verifyModel (H : HashParams) (fp : FieldParams) (d : Desc) (pub : PubInputs)
-    (acc : Security.Acceptable) (bytes : Bytes) : R Unit :=
-  verifyWith H fp (fun e => if e = 1 then some (efBase fp) else none) d pub acc bytes
 
 end Wf.Verifier
